@@ -134,6 +134,20 @@ def decode(code: int, n: int) -> int:
 	raise AssertionError('code out of range')
 
 
+def decode_bits(code: int, n: int) -> int:
+	"""like decode (requires 0 <= code < n), by bisection: about log2(n) solver decisions per path instead of up to n"""
+	lo, hi = 0, n
+	while hi - lo > 1:
+		mid = (lo + hi) // 2
+		if code < mid:
+			hi = mid
+		else:
+			lo = mid
+	if code != lo:
+		raise AssertionError('code out of range')
+	return lo
+
+
 def natively(fn, *args):
 	"""run fn(*args) outside CrossHair's tracer (arguments must already be concrete, e.g. through decode): used for finite case
 	splits where everything after the decode is concrete anyway - the real code then runs at native speed"""
